@@ -407,6 +407,21 @@ def validate_traces(rep, module, cfg, trace_path, name=None, tr_field="tr", max_
     return rejected
 
 
+def tlaps(module, timeout=900):
+    """Run the TLA+ proof system on spec/<module>.tla in a scratch copy; returns (all_proved, n_obligations, output)."""
+    run = tempfile.mkdtemp(prefix="tlaps-", dir=scratch())
+    for f in os.listdir(SPEC):
+        if f.endswith(".tla"):
+            shutil.copy(os.path.join(SPEC, f), run)
+    try:
+        p = subprocess.run(["tlapm", "--threads", str(min(NCPU, 8)), module + ".tla"], cwd=run, stdout=subprocess.PIPE,
+                           stderr=subprocess.STDOUT, text=True, timeout=timeout)
+    except (subprocess.TimeoutExpired, OSError) as e:
+        raise Inconclusive("tlapm did not finish on %s: %s" % (module, e))
+    m = re.search(r"All (\d+) obligations? proved", p.stdout)
+    return bool(m) and p.returncode == 0, int(m.group(1)) if m else 0, p.stdout
+
+
 def ingester_protocol(rep, prop, thorough):
     """Ingester.tla: the Transform / ingester / FormatReader call protocol.  TLC explores the protocol state space, then
     validates the call sequences recorded by a recording FormatReader wrapped around every built-in reader."""
@@ -414,6 +429,13 @@ def ingester_protocol(rep, prop, thorough):
     rep.add_tlc("MC_Ingester", r)
     if not tlc_ok(r, "MC_Ingester"):
         raise Inconclusive("Ingester.tla violates its own invariant %s: specification problem" % r.violated)
+    if thorough:   # the same invariants for any number of nodes: inductive invariant proved by the TLA+ proof system
+        ok, n, out = tlaps("Ingester_proof")
+        if not ok:
+            log(out[-2000:])
+            raise Inconclusive("tlapm could not prove Ingester_proof.tla")
+        rep.notes.append("Ingester_proof.tla: all %d proof obligations discharged by tlapm (inductive invariant, unbounded number of nodes)" % n)
+        log("[tlaps] Ingester_proof: all %d obligations proved" % n)
     tr = os.path.join(scratch(), "ing.trace.ndjson")
     recs, _ = run_vh(["ing-drive", tr, "6" if thorough else "2"], timeout=3000)
     for x in recs:
